@@ -5,6 +5,7 @@ import (
 	"encoding/json"
 	"fmt"
 	"math/rand"
+	"os"
 	"strings"
 	"time"
 
@@ -538,7 +539,9 @@ func CheckC12(run *evid.Run) {
 	placePool = place
 	c12PlaceFile(place)
 	total := pick(run.Tier, 800, 10000)
+	defer os.Remove(c12PoolPath())
 	runCases(run, "C12place", total, true, false, ChildOpts{
+		Env: []string{"VERIF_C12_POOL=" + c12PoolPath()},
 		OnDeath: func(last map[string]any, tail, kind string) (string, map[string]any) {
 			return "C12/process-died-loading", det("kind", kind, "edits", last["edits"], "position", last["position"], "loader", last["loader"])
 		}})
@@ -559,7 +562,12 @@ type placeItem struct {
 	RawHex   string `json:"raw"`
 }
 
-func c12PoolPath() string { return fmt.Sprintf("%s/c12-pool.json", scratchDir()) }
+func c12PoolPath() string {
+	if p := os.Getenv("VERIF_C12_POOL"); p != "" {
+		return p
+	}
+	return fmt.Sprintf("%s/c12-pool-%d.json", scratchDir(), os.Getpid())
+}
 
 func c12PlaceFile(place []*hostile) {
 	var items []placeItem
